@@ -21,17 +21,30 @@ type c44Store struct {
 	mu      sync.Mutex
 	objects map[string][]byte
 	failN   map[string]int // key -> remaining forced read failures (-1 = forever)
+	failOp  map[string]int // non-read op -> remaining forced failures (transient bucket error, no effect)
 	log     []string
 }
 
+// failing reports (and consumes) a forced failure of a non-read operation. Caller holds s.mu.
+func (s *c44Store) failing(op string) bool {
+	if s.failOp[op] > 0 {
+		s.failOp[op]--
+		return true
+	}
+	return false
+}
+
 func newC44Store(name string) *c44Store {
-	return &c44Store{name: name, objects: map[string][]byte{}, failN: map[string]int{}}
+	return &c44Store{name: name, objects: map[string][]byte{}, failN: map[string]int{}, failOp: map[string]int{}}
 }
 func (s *c44Store) rec(op, key string) { s.log = append(s.log, op+" "+key) }
 func (s *c44Store) UploadSegment(ctx context.Context, key string, body []byte) error {
 	s.mu.Lock()
 	defer s.mu.Unlock()
 	s.rec("upload_segment", key)
+	if s.failing("upload_segment") {
+		return errors.New("verif: transient bucket failure")
+	}
 	s.objects[key] = append([]byte(nil), body...)
 	return nil
 }
@@ -39,6 +52,9 @@ func (s *c44Store) UploadIndex(ctx context.Context, key string, body []byte) err
 	s.mu.Lock()
 	defer s.mu.Unlock()
 	s.rec("upload_index", key)
+	if s.failing("upload_index") {
+		return errors.New("verif: transient bucket failure")
+	}
 	s.objects[key] = append([]byte(nil), body...)
 	return nil
 }
@@ -46,6 +62,9 @@ func (s *c44Store) DeleteSegment(ctx context.Context, key string) error {
 	s.mu.Lock()
 	defer s.mu.Unlock()
 	s.rec("delete_segment", key)
+	if s.failing("delete_segment") {
+		return errors.New("verif: transient bucket failure")
+	}
 	delete(s.objects, key)
 	return nil
 }
@@ -53,6 +72,9 @@ func (s *c44Store) DeleteIndex(ctx context.Context, key string) error {
 	s.mu.Lock()
 	defer s.mu.Unlock()
 	s.rec("delete_index", key)
+	if s.failing("delete_index") {
+		return errors.New("verif: transient bucket failure")
+	}
 	delete(s.objects, key)
 	return nil
 }
@@ -92,6 +114,9 @@ func (s *c44Store) ListSegments(ctx context.Context, prefix string) ([]storage.S
 	s.mu.Lock()
 	defer s.mu.Unlock()
 	s.rec("list", prefix)
+	if s.failing("list") {
+		return nil, errors.New("verif: transient bucket failure")
+	}
 	var out []storage.S3Object
 	for k, v := range s.objects {
 		if strings.HasPrefix(k, prefix) {
@@ -162,7 +187,7 @@ func c44Apply(replica *c44Store, key string, primary []byte, state string) {
 
 func TestVerifC44Dual(t *testing.T) {
 	r := verifkit.Start(t, "C44", "dual")
-	defer r.Finish("exhaustive: 3 objects (segment A 200 B, index of A 40 B, segment B 90 B), every assignment of replica state in {identical, missing, failing, fail_once, stale_same_len, stale_shorter, empty} to the 3 objects (343) x primary has/has not object B x 9 reads per object (full, ranges 0-31, 10-60, last 16 bytes, 150-10^6 clamped, beyond end, single byte, index read); then PRNG op sequences mixing uploads/deletes/lists/ensure-bucket with reads. distinct = (state assignment, read); non-trivial = the replica did not hold an identical copy of the object read",
+	defer r.Finish("exhaustive: 3 objects (segment A 200 B, index of A 40 B, segment B 90 B), every assignment of replica state in {identical, missing, failing, fail_once, stale_same_len, stale_shorter, empty} to the 3 objects (343) x primary has/has not object B x 9 reads per object (full, ranges 0-31, 10-60, last 16 bytes, 150-10^6 clamped, beyond end, single byte, index read); then PRNG op sequences mixing uploads/deletes/lists/ensure-bucket with reads while the replica lags (holds only some of the uploads); a quarter of the writes / deletes / listings meet a transient failure of the primary bucket: such an operation may fail or be retried on the primary, but the replica must see nothing of it, a listing that is answered must equal the primary's content, and an upload reported as stored must be in the primary. distinct = (state assignment, read); non-trivial = the replica did not hold an identical copy of the object read",
 		"both buckets are in-memory fakes with S3 range semantics; the dual client under test is the real cmd/broker dualS3Client")
 	ctx := context.Background()
 	type obj struct {
@@ -251,7 +276,8 @@ func TestVerifC44Dual(t *testing.T) {
 								r.Violation(cls, fmt.Sprintf("object %d (%s) range %v replica=%s: %s", oi, o.key, rg, st, why),
 									map[string]any{"replica_states": states, "primary_has_object_B": primaryHasB, "object": o.key, "range": rg, "primary_log": primary.log, "replica_log": replica.log})
 							}
-							if w := replica.writesAndLists(); len(w) > 0 {
+							primary.failOp = map[string]int{}
+		if w := replica.writesAndLists(); len(w) > 0 {
 								r.Violation("non_read_op_on_replica", "replica received "+strings.Join(w, ","), nil)
 							}
 						}
@@ -268,35 +294,86 @@ func TestVerifC44Dual(t *testing.T) {
 		dual := newDualS3Client(primary, replica)
 		model := map[string][]byte{}
 		var ops []string
+		// the model is what the PRIMARY holds (a write that met a failing primary may or may not have been retried)
+		syncModel := func(k string) {
+			primary.mu.Lock()
+			b, ok := primary.objects[k]
+			primary.mu.Unlock()
+			if ok {
+				model[k] = append([]byte(nil), b...)
+			} else {
+				delete(model, k)
+			}
+		}
 		for oi := 0; oi < 12; oi++ {
 			key := fmt.Sprintf("default/t/%d/segment-%020d", rng.Intn(2), rng.Intn(3))
-			switch rng.Intn(7) {
+			op := rng.Intn(7)
+			// a transient failure of the PRIMARY bucket on this very operation (writes, deletes, listings): the
+			// operation may fail or be retried on the primary, but nothing of it may go to / come from the replica
+			primaryFails := false
+			if op <= 4 && rng.Intn(4) == 0 {
+				primaryFails = true
+				primary.failOp[[]string{"upload_segment", "upload_index", "delete_segment", "delete_index", "list"}[op]] = 1
+				r.Count("non_read_ops_with_a_failing_primary", 1)
+			}
+			switch op {
 			case 0:
 				body := c44Body(fmt.Sprintf("c%do%d", ci, oi), 20+rng.Intn(100))
-				_ = dual.UploadSegment(ctx, key+".kfs", body)
-				model[key+".kfs"] = body
-				ops = append(ops, "upload_segment "+key)
+				uerr := dual.UploadSegment(ctx, key+".kfs", body)
+				ops = append(ops, fmt.Sprintf("upload_segment %s primary_fails=%v -> %v", key, primaryFails, uerr))
+				if got, has := primary.objects[key+".kfs"]; uerr == nil && (!has || !bytes.Equal(got, body)) {
+					r.Violation("upload_reported_ok_but_primary_lacks_object", fmt.Sprintf("upload of %s.kfs reported success but the primary does not hold these bytes", key), map[string]any{"ops": ops})
+				}
+				syncModel(key + ".kfs")
+				if uerr != nil {
+					continue
+				}
 				if rng.Intn(2) == 0 { // replication catches up for some objects only
 					replica.objects[key+".kfs"] = append([]byte(nil), body...)
 				}
 			case 1:
 				body := c44Body(fmt.Sprintf("i%do%d", ci, oi), 16+rng.Intn(40))
-				_ = dual.UploadIndex(ctx, key+".index", body)
-				model[key+".index"] = body
-				ops = append(ops, "upload_index "+key)
+				ierr := dual.UploadIndex(ctx, key+".index", body)
+				ops = append(ops, fmt.Sprintf("upload_index %s primary_fails=%v -> %v", key, primaryFails, ierr))
+				if got, has := primary.objects[key+".index"]; ierr == nil && (!has || !bytes.Equal(got, body)) {
+					r.Violation("upload_reported_ok_but_primary_lacks_object", fmt.Sprintf("upload of %s.index reported success but the primary does not hold these bytes", key), map[string]any{"ops": ops})
+				}
+				syncModel(key + ".index")
 			case 2:
-				_ = dual.DeleteSegment(ctx, key+".kfs")
-				delete(model, key+".kfs")
-				ops = append(ops, "delete_segment "+key)
+				derr := dual.DeleteSegment(ctx, key+".kfs")
+				ops = append(ops, fmt.Sprintf("delete_segment %s primary_fails=%v -> %v", key, primaryFails, derr))
+				if _, has := primary.objects[key+".kfs"]; derr == nil && has {
+					r.Violation("delete_reported_ok_but_primary_keeps_object", fmt.Sprintf("delete of %s.kfs reported success but the primary still holds it", key), map[string]any{"ops": ops})
+				}
+				syncModel(key + ".kfs")
 			case 3:
-				_ = dual.DeleteIndex(ctx, key+".index")
-				delete(model, key+".index")
-				ops = append(ops, "delete_index "+key)
+				derr := dual.DeleteIndex(ctx, key+".index")
+				ops = append(ops, fmt.Sprintf("delete_index %s primary_fails=%v -> %v", key, primaryFails, derr))
+				if _, has := primary.objects[key+".index"]; derr == nil && has {
+					r.Violation("delete_reported_ok_but_primary_keeps_object", fmt.Sprintf("delete of %s.index reported success but the primary still holds it", key), map[string]any{"ops": ops})
+				}
+				syncModel(key + ".index")
 			case 4:
+				// the replica lags: a listing answered by it would miss the newest object / show a deleted one
 				got, err := dual.ListSegments(ctx, "default/t/")
-				ops = append(ops, "list")
-				if err != nil || len(got) != len(model) {
-					r.Violation("listing_differs_from_primary", fmt.Sprintf("listing returned %d objects (err %v), primary holds %d", len(got), err, len(model)), map[string]any{"ops": ops})
+				ops = append(ops, fmt.Sprintf("list primary_fails=%v -> %d objects, err %v", primaryFails, len(got), err))
+				r.Count("listings_judged", 1)
+				same := err == nil && len(got) == len(model)
+				if same {
+					for _, o := range got {
+						if b, ok := model[o.Key]; !ok || int64(len(b)) != o.Size {
+							same = false
+						}
+					}
+				}
+				if err != nil && primaryFails {
+					r.Count("listings_failed_with_the_primary", 1)
+				} else if !same {
+					cls := "listing_differs_from_primary"
+					if primaryFails {
+						cls = "listing_answered_while_primary_listing_failed"
+					}
+					r.Violation(cls, fmt.Sprintf("listing returned %d objects (err %v), primary holds %d", len(got), err, len(model)), map[string]any{"ops": ops})
 				}
 			case 5:
 				_ = dual.EnsureBucket(ctx)
@@ -327,4 +404,6 @@ func TestVerifC44Dual(t *testing.T) {
 	}
 	r.Exhaustive(true)
 	r.Floor("reads_judged", 5000)
+	r.Floor("non_read_ops_with_a_failing_primary", 100)
+	r.Floor("listings_judged", 100)
 }
